@@ -10,6 +10,7 @@ import Pyxv.Model.OpsChoices
 import Pyxv.Model.OpsEntities
 import Pyxv.Model.OpsSettings
 import Pyxv.Model.OpsRefs
+import Pyxv.Model.OpsRefsSites
 import Pyxv.Model.OpsWarnings
 import Pyxv.Model.OpsLexer
 import Pyxv.Model.OpsDefaults
@@ -37,7 +38,7 @@ Driver: one JSON request per line on stdin, one JSON reply per line on stdout.
 open Lean Pyxv
 
 def handlers : List (String → Json → Option (Except String Json)) :=
-  [Xml.opsXml, Form.opsForm, Validator.opsValidator, Chan.opsChannel, Texts.opsTexts, Process.opsProcess, Binds.opsBinds, Choices.opsChoices, Entities.opsEntities, Settings.opsSettings, Refs.opsRefs, Warn.opsWarn, Lexer.opsLexer, Defaults.opsDefaults, Backends.opsBackends, Itext.opsItext, JV.opsJVal, ToJson.opsToJson, ToJson.opsFromJsonChoices, Asm.opsAsm, Spell.opsSpell, Rows17.opsC17, Controls.opsControls, Convert.opsConvert, Binds.opsBindsRefs, ItextOut.opsItextOut, ItextOut.opsItextOutRep, HeaderRules.opsC17Headers, Backends.Typed.opsBackendsTyped, FormFlat.opsFlat, FormFlat.opsFlatW, FormAttrs.opsAttrs]
+  [Xml.opsXml, Form.opsForm, Validator.opsValidator, Chan.opsChannel, Texts.opsTexts, Process.opsProcess, Binds.opsBinds, Choices.opsChoices, Entities.opsEntities, Settings.opsSettings, Refs.opsRefs, Warn.opsWarn, Lexer.opsLexer, Defaults.opsDefaults, Backends.opsBackends, Itext.opsItext, JV.opsJVal, ToJson.opsToJson, ToJson.opsFromJsonChoices, Asm.opsAsm, Spell.opsSpell, Rows17.opsC17, Controls.opsControls, Convert.opsConvert, Binds.opsBindsRefs, ItextOut.opsItextOut, ItextOut.opsItextOutRep, HeaderRules.opsC17Headers, Backends.Typed.opsBackendsTyped, FormFlat.opsFlat, FormFlat.opsFlatW, FormAttrs.opsAttrs, Refs.opsRefsSites]
 
 def dispatch (op : String) (j : Json) : Except String Json :=
   let rec go : List (String → Json → Option (Except String Json)) → Except String Json
